@@ -510,7 +510,18 @@ def main(argv=None):
     for bucket, rpath, msg in violations:
         short = msg.splitlines()[0][:300] if msg else ""
         print(f"# {bucket}: {short}")
+        for more in (msg or "").splitlines()[1:16]:
+            print(f"#   {more[:300]}")
         print(f"VIOLATION property={prop} replay={rpath}")
+        try:
+            # the replay file inline (a run in a discarded sandbox leaves
+            # only its log behind)
+            with open(rpath) as fin:
+                blob = json.dumps(json.load(fin), default=str)
+            if len(blob) <= 60000:
+                print(f"# replay-json {os.path.basename(rpath)} {blob}")
+        except (OSError, ValueError):
+            pass
     print(f"{prop} {args.tier} seed={seed}: evaluations={cov['evaluations']} "
           f"distinct_nontrivial={cov['distinct_nontrivial']} "
           f"excluded_known={sum(excluded.values())} "
